@@ -52,3 +52,95 @@ def write_meson_hd5(directory, filestem, configs, meson='meson_0', gamma_snk='Ga
         out.append(file_desc(path, 0, [(0, os.path.getsize(path), cfg)], replica=filestem,
                              rep_name=None))
     return out
+
+
+# ---- matrix-valued Hadrons outputs (ExternalLeg, Bilinear, FourQuarkFullyConnected): one file per configuration --------------------
+def _mat_dataset(group, mat):
+    """dataset 'corr' of shape (1, 1) + mat.shape, compound (re, im): the readers take [0][0] and view it as complex"""
+    mat = np.asarray(mat, dtype=complex)
+    arr = np.empty((1, 1) + mat.shape, dtype=CORR_DTYPE)
+    arr['re'][0, 0] = mat.real
+    arr['im'][0, 0] = mat.imag
+    group.create_dataset('corr', data=arr)
+
+
+def _mom_attr(mom):
+    return np.array([(' '.join('%g' % m for m in mom) + ' ').encode('ascii')])       # "[b'1 0 0 2 ']": the readers cut [3:-2] and split
+
+
+def write_externalleg_hd5(directory, filestem, configs, mom_in=(1, 0, 0, 2)):
+    """configs: {cfg: complex array (s, s, c, c)} -> <filestem>.<cfg>.h5 with /ExternalLeg/corr and /ExternalLeg/info(pIn)"""
+    directory = ensure_dir(directory)
+    for cfg, mat in configs.items():
+        with h5py.File(os.path.join(directory, '%s.%d.h5' % (filestem, cfg)), 'w') as f:
+            g = f.create_group('ExternalLeg')
+            _mat_dataset(g, mat)
+            g.create_group('info').attrs.create('pIn', _mom_attr(mom_in))
+
+
+def write_bilinear_hd5(directory, filestem, configs, gammas, mom_in=(1, 0, 0, 2), mom_out=(0, 1, 2, 0)):
+    """configs: {cfg: [16 complex arrays]}, gammas: 16 names -> /Bilinear/Bilinear_<i>/{corr, info(gamma, pIn, pOut)}"""
+    directory = ensure_dir(directory)
+    for cfg, mats in configs.items():
+        with h5py.File(os.path.join(directory, '%s.%d.h5' % (filestem, cfg)), 'w') as f:
+            top = f.create_group('Bilinear')
+            for i, (name, mat) in enumerate(zip(gammas, mats)):
+                g = top.create_group('Bilinear_%d' % i)
+                _mat_dataset(g, mat)
+                info = g.create_group('info')
+                info.attrs.create('gamma', _bytes_attr(name))
+                info.attrs.create('pIn', _mom_attr(mom_in))
+                info.attrs.create('pOut', _mom_attr(mom_out))
+
+
+def write_fourquark_hd5(directory, filestem, configs, pairs, mom_in=(1, 0, 0, 2), mom_out=(0, 1, 2, 0)):
+    """configs: {cfg: [32 complex arrays (s, s, c, c, s, s, c, c)]}, pairs: 32 (gammaA, gammaB) names"""
+    directory = ensure_dir(directory)
+    for cfg, mats in configs.items():
+        with h5py.File(os.path.join(directory, '%s.%d.h5' % (filestem, cfg)), 'w') as f:
+            top = f.create_group('FourQuarkFullyConnected')
+            for i, ((ga, gb), mat) in enumerate(zip(pairs, mats)):
+                g = top.create_group('FourQuarkFullyConnected_%d' % i)
+                _mat_dataset(g, mat)
+                info = g.create_group('info')
+                info.attrs.create('gammaA', _bytes_attr(ga))
+                info.attrs.create('gammaB', _bytes_attr(gb))
+                info.attrs.create('pIn', _mom_attr(mom_in))
+                info.attrs.create('pOut', _mom_attr(mom_out))
+
+
+# ---- DistillationContraction: one DIRECTORY per configuration, data.<cfg>/<stem>.<cfg>.h5 -------------------------------------------
+def write_distillation_hd5(directory, configs, stems, nt, diagrams=('direct',)):
+    """configs: {cfg: {stem: {diagram: complex array (nt sources, nt)}}}; stems: {stem: [4 input file names]}"""
+    directory = ensure_dir(directory)
+    for cfg, per_stem in configs.items():
+        sub = ensure_dir(os.path.join(directory, 'data.%d' % cfg))
+        for stem, per_diag in per_stem.items():
+            with h5py.File(os.path.join(sub, '%s.%d.h5' % (stem, cfg)), 'w') as f:
+                md = f.create_group('DistillationContraction/Metadata')
+                md.attrs.create('TimeSources', _bytes_attr('0...'))
+                md.attrs.create('Nt', np.array([nt], dtype=np.int32))
+                inp = md.create_group('DmfInputFiles')
+                for k, name in enumerate(stems[stem]):
+                    inp.attrs.create('DmfInputFiles_%d' % k, _bytes_attr(name))
+                inp.attrs.create('n', np.array([len(stems[stem])], dtype=np.int32))      # the reader counts the attributes minus one
+                for diag in diagrams:
+                    gd = f.require_group('DistillationContraction/Correlators').create_group(diag)
+                    for x0 in range(nt):
+                        vals = np.asarray(per_diag[diag][x0], dtype=complex)
+                        arr = np.empty(nt, dtype=CORR_DTYPE)
+                        arr['re'], arr['im'] = vals.real, vals.imag
+                        gd.create_dataset(str(x0), data=arr)
+
+
+# ---- FlowObservables (extract_t0_hd5): /FlowObservables/FlowObservables_<k>/data with attribute description -----------------------
+def write_flowobs_hd5(directory, filestem, configs, flow_times, descriptions=('Flow time', 'Plaquette energy density', 'Clover energy density')):
+    """configs: {cfg: {description: real array over flow times}}; FlowObservables_0 holds the flow times themselves"""
+    directory = ensure_dir(directory)
+    for cfg, per_obs in configs.items():
+        with h5py.File(os.path.join(directory, '%s.%d.h5' % (filestem, cfg)), 'w') as f:
+            top = f.create_group('FlowObservables')
+            for k, desc in enumerate(descriptions):
+                g = top.create_group('FlowObservables_%d' % k)
+                g.attrs.create('description', _bytes_attr(desc))
+                g.create_dataset('data', data=np.asarray(flow_times if k == 0 else per_obs[desc], dtype=np.float64))
